@@ -1,195 +1,6 @@
-/- helper lemmas for C12 (replicate): extension without identity map, the image grid -/
+/- helper lemmas for C12 (replicate): the fold over the images, the image grid, lattice index division -/
 import MofunModel.Proofs.ExtendLemmas
 namespace Mofun
-/-! ### extending by a structure with the same label lists and no identity map -/
-
-theorem mem_of_mem_dedup {α} [DecidableEq α] (l : List α) (x : α) (h : x ∈ dedup l) : x ∈ l := by
-  induction l with
-  | nil => simp [dedup] at h
-  | cons y ys ih =>
-    unfold dedup at h
-    rcases List.mem_cons.mp h with e | e
-    · simp [e]
-    · exact List.mem_cons_of_mem _ (ih (List.mem_filter.mp e).1)
-
-theorem mergeLabels_self (l : List String) : mergeLabels l l = l := by
-  unfold mergeLabels
-  have : (dedup l).filter (fun x => !l.contains x) = [] := by
-    apply List.filter_eq_nil_iff.mpr
-    intro x hx
-    simp [mem_of_mem_dedup l x hx]
-  rw [this, List.append_nil]
-
-theorem padRow_of_length (row : List String) (w : Nat) (h : row.length = w) : padRow row w = row := by
-  simp [padRow, h]
-
-theorem matchRow_self (l : List String) (hnd : l.Nodup) (row : List String) (h : row.length = l.length) :
-    matchRow l l row = row := by
-  apply List.ext_getElem?
-  intro i
-  unfold matchRow
-  rw [List.getElem?_map]
-  by_cases hi : i < l.length
-  · rw [List.getElem?_eq_getElem hi, Option.map_some,
-      indexOf?_nodup l hnd l[i] i (List.getElem?_eq_getElem hi)]
-    have hi' : i < row.length := by omega
-    simp [List.getD_eq_getElem?_getD, List.getElem?_eq_getElem hi']
-  · rw [List.getElem?_eq_none (by omega), List.getElem?_eq_none (by omega)]; rfl
-
-/-- `extendWith` succeeds as soon as the conversion is defined on every atom used -/
-theorem extendWith_total (mine other : TermTable) (off : Nat) (conv : Nat → Option Nat)
-    (h : ∀ t ∈ other.terms, ∀ x ∈ t.atoms, (conv x).isSome = true) :
-    ∃ res, mine.extendWith other off conv = .ok res := by
-  unfold TermTable.extendWith
-  by_cases he : other.terms.isEmpty = true
-  · simp only [he, if_true]; exact ⟨_, rfl⟩
-  · have he' : other.terms.isEmpty = false := by simpa using he
-    have hany : (other.terms.any (fun t => t.atoms.any (fun a => (conv a).isNone))) = false := by
-      apply List.any_eq_false.mpr
-      intro t ht
-      have : t.atoms.any (fun a => (conv a).isNone) = false := by
-        apply List.any_eq_false.mpr
-        intro x hx
-        have := h t ht x hx
-        cases hc : conv x <;> simp_all
-      simp [this]
-    simp only [he', hany, Bool.false_eq_true, if_false]
-    exact ⟨_, rfl⟩
-
-/-- the hypotheses under which one term kind is extended by pure concatenation -/
-structure TabDisjoint (mine other : TermTable) (n m : Nat) : Prop where
-  labels : other.xlabels = mine.xlabels
-  nodup : mine.xlabels.Nodup
-  mineRows : ∀ t ∈ mine.terms, t.extra.length = mine.xlabels.length
-  otherRows : ∀ t ∈ other.terms, t.extra.length = mine.xlabels.length
-  mineIdx : ∀ t ∈ mine.terms, ∀ x ∈ t.atoms, x < n
-  otherIdx : ∀ t ∈ other.terms, t.atoms ≠ [] ∧ ∀ x ∈ t.atoms, x < m
-
-/-- a term of the appended image: atom indices shifted, type shifted -/
-def shiftTerm (n off : Nat) (t : Term) : Term := { t with atoms := t.atoms.map (· + n), ty := t.ty + off }
-
-theorem extendWith_disjoint (mine other : TermTable) (n m off : Nat) (conv : Nat → Option Nat)
-    (hd : TabDisjoint mine other n m) (hconv : ∀ x, x < m → conv x = some (x + n)) :
-    mine.extendWith other off conv
-      = .ok { mine with terms := mine.terms ++ other.terms.map (shiftTerm n off) } := by
-  have hsome : ∀ t ∈ other.terms, ∀ x ∈ t.atoms, (conv x).isSome = true := by
-    intro t ht x hx
-    rw [hconv x ((hd.otherIdx t ht).2 x hx)]; rfl
-  obtain ⟨res, hres⟩ := extendWith_total mine other off conv hsome
-  obtain ⟨h1, h2, h3, _⟩ := extendWith_spec mine other res off conv hres
-  rw [hres]
-  have hl : mergeLabels mine.xlabels other.xlabels = mine.xlabels := by rw [hd.labels, mergeLabels_self]
-  rw [hl] at h1 h2
-  have hnew : other.terms.map (convTerm mine.xlabels other.xlabels off conv) = other.terms.map (shiftTerm n off) := by
-    apply List.map_congr_left
-    intro t ht
-    unfold convTerm shiftTerm
-    have hat : t.atoms.map (fun a => (conv a).getD 0) = t.atoms.map (· + n) := by
-      apply List.map_congr_left
-      intro x hx
-      rw [hconv x ((hd.otherIdx t ht).2 x hx)]; rfl
-    rw [hat, hd.labels, matchRow_self _ hd.nodup _ (hd.otherRows t ht)]
-  have hkeep : mine.terms.filter (fun t => !superseded
-      ((other.terms.map (convTerm mine.xlabels other.xlabels off conv)).map (·.atoms)) t) = mine.terms := by
-    apply List.filter_eq_self.mpr
-    intro t ht
-    rw [hnew]
-    have : superseded ((other.terms.map (shiftTerm n off)).map (·.atoms)) t = false := by
-      cases hs : superseded ((other.terms.map (shiftTerm n off)).map (·.atoms)) t with
-      | false => rfl
-      | true =>
-        exfalso
-        simp only [superseded, Bool.or_eq_true, List.any_eq_true, decide_eq_true_eq, List.map_map,
-          List.mem_map, Function.comp] at hs
-        have key : ∀ u ∈ other.terms, ∀ l : List Nat, (∀ y, y ∈ l ↔ y ∈ (shiftTerm n off u).atoms) → t.atoms ≠ l := by
-          intro u hu l hl e
-          obtain ⟨hne, _⟩ := hd.otherIdx u hu
-          obtain ⟨x, hx⟩ := List.exists_mem_of_ne_nil _ hne
-          have hmem : x + n ∈ (shiftTerm n off u).atoms := List.mem_map.mpr ⟨x, hx, rfl⟩
-          have : x + n ∈ t.atoms := by rw [e]; exact (hl _).mpr hmem
-          have := hd.mineIdx t ht _ this
-          omega
-        rcases hs with ⟨l, ⟨u, hu, rfl⟩, e⟩ | ⟨l, ⟨u, hu, rfl⟩, e⟩
-        · exact key u hu _ (fun _ => Iff.rfl) e
-        · exact key u hu _ (fun _ => List.mem_reverse) e
-    rw [this]; rfl
-  have hpad : mine.terms.map (padTerm mine.xlabels.length) = mine.terms := by
-    conv => rhs; rw [← List.map_id mine.terms]
-    apply List.map_congr_left
-    intro t ht
-    unfold padTerm
-    rw [padRow_of_length _ _ (hd.mineRows t ht)]; rfl
-  rw [hkeep, hpad, hnew] at h1
-  cases res
-  simp_all
-
-/-- hypotheses under which `a.extend b (some o) []` is pure concatenation: same label lists (without repeats),
-    every extra row as wide as its label list, every term index inside its own structure, no empty term -/
-structure NoMapOK (a b : Atoms) : Prop where
-  labels : b.xlabels = a.xlabels
-  nodup : a.xlabels.Nodup
-  aRows : ∀ r ∈ a.atoms, r.extra.length = a.xlabels.length
-  bRows : ∀ r ∈ b.atoms, r.extra.length = a.xlabels.length
-  bonds : TabDisjoint a.bonds b.bonds a.atoms.length b.atoms.length
-  angles : TabDisjoint a.angles b.angles a.atoms.length b.atoms.length
-  dihedrals : TabDisjoint a.dihedrals b.dihedrals a.atoms.length b.atoms.length
-  impropers : TabDisjoint a.impropers b.impropers a.atoms.length b.atoms.length
-
-/-- `b` stacked after `a`: atoms appended (types + atom offset), terms appended with indices shifted by `|a|` -/
-def stackOn (a b : Atoms) (o : Offsets) : Atoms :=
-  { a with
-    atoms := a.atoms ++ b.atoms.map (fun r => { r with ty := r.ty + o.atom })
-    bonds := { a.bonds with terms := a.bonds.terms ++ b.bonds.terms.map (shiftTerm a.atoms.length o.bond) }
-    angles := { a.angles with terms := a.angles.terms ++ b.angles.terms.map (shiftTerm a.atoms.length o.angle) }
-    dihedrals := { a.dihedrals with
-      terms := a.dihedrals.terms ++ b.dihedrals.terms.map (shiftTerm a.atoms.length o.dihedral) }
-    impropers := { a.impropers with
-      terms := a.impropers.terms ++ b.impropers.terms.map (shiftTerm a.atoms.length o.improper) } }
-
-theorem extConv_nomap (a b : Atoms) (x : Nat) (hx : x < b.atoms.length) :
-    extConv a b [] x = some (x + a.atoms.length) := by
-  have hto : extToAdd b [] = List.range b.atoms.length := by
-    unfold extToAdd
-    apply List.filter_eq_self.mpr
-    intro i _; rfl
-  have hl : lookupLast [] x = none := rfl
-  simp only [extConv, hl, hto, indexOf?_range _ _ hx, Option.map_some]
-
-theorem extend_nomap (a b : Atoms) (o : Offsets) (h : NoMapOK a b) :
-    a.extend b (some o) [] = .ok (stackOn a b o) := by
-  rw [extend_eq_core]
-  show extendCore a o b [] = _
-  unfold extendCore
-  have g1 : (([] : List (Nat × Nat)).map (·.1)).Nodup' = true := rfl
-  have g2 : ([] : List (Nat × Nat)).any (fun kv => decide (kv.1 ≥ b.atoms.length) || decide (kv.2 ≥ a.atoms.length)) = false := rfl
-  simp only [g1, g2, Bool.not_true, Bool.false_eq_true, if_false]
-  rw [extendWith_disjoint _ _ _ _ _ _ h.bonds (extConv_nomap a b),
-    extendWith_disjoint _ _ _ _ _ _ h.angles (extConv_nomap a b),
-    extendWith_disjoint _ _ _ _ _ _ h.dihedrals (extConv_nomap a b),
-    extendWith_disjoint _ _ _ _ _ _ h.impropers (extConv_nomap a b)]
-  simp only [bind, Except.bind, pure, Except.pure]
-  have hl : extLabels a b = a.xlabels := by unfold extLabels; rw [h.labels, mergeLabels_self]
-  have hpad : extPadded a b = a.atoms := by
-    unfold extPadded
-    conv => rhs; rw [← List.map_id a.atoms]
-    apply List.map_congr_left
-    intro r hr
-    rw [hl, padRow_of_length _ _ (h.aRows r hr)]; rfl
-  have hadd : extAdded a b o [] = b.atoms.map (fun r => { r with ty := r.ty + o.atom }) := by
-    rw [extAdded_eq]
-    have hf : (b.atoms.zipIdx).filter (fun q => !(([] : List (Nat × Nat)).map (·.1)).contains q.2) = b.atoms.zipIdx :=
-      List.filter_eq_self.mpr (fun _ _ => rfl)
-    rw [hf]
-    have hm : (b.atoms.zipIdx).map (fun q => appendRow a b o q.1) = (b.atoms.zipIdx.map Prod.fst).map (appendRow a b o) := by
-      rw [List.map_map]; rfl
-    rw [hm, List.zipIdx_map_fst]
-    apply List.map_congr_left
-    intro r hr
-    unfold appendRow
-    rw [hl, h.labels, matchRow_self _ h.nodup _ (h.bRows r hr)]
-  simp only [List.foldl_nil, hpad, hadd, hl]
-  rfl
-
 /-! ### replicate: the fold over the images -/
 
 /-- well-formedness of one term kind (decidable): labels without repeats, every extra row as wide as the labels,
@@ -358,7 +169,7 @@ theorem imageTerms_succ (ts : List Term) (n start count : Nat) :
   · simp
   · congr 1
     funext p
-    simp only [Function.comp]
+    show List.map (shiftAtoms (start + (p + 1) * n)) ts = List.map (shiftAtoms (start + n + p * n)) ts
     congr 2
     rw [Nat.succ_mul]; omega
 
@@ -396,5 +207,138 @@ theorem stackFold_rest (a : Atoms) (ds : List Vec3) (acc : Atoms) :
   | cons d ds ih =>
     have := ih (stack0 acc (a.translate d))
     simpa [List.foldl_cons, stack0] using this
+
+/-! ### the image grid -/
+
+/-- all multipliers `(i, j, k)`, `i < da`, `j < db`, `k < dc`, in numpy's meshgrid order -/
+def grid (da db dc : Nat) : List (Nat × Nat × Nat) :=
+  (List.range dc).flatMap (fun k => (List.range da).flatMap (fun i => (List.range db).map (fun j => (i, j, k))))
+
+theorem ucMults_eq (da db dc : Nat) : ucMults da db dc = (grid da db dc).filter (fun m => m != (0, 0, 0)) := rfl
+
+theorem mem_grid (da db dc i j k : Nat) : (i, j, k) ∈ grid da db dc ↔ i < da ∧ j < db ∧ k < dc := by
+  simp only [grid, List.mem_flatMap, List.mem_map, List.mem_range, Prod.mk.injEq]
+  constructor
+  · rintro ⟨k', hk, i', hi, j', hj, rfl, rfl, rfl⟩; exact ⟨hi, hj, hk⟩
+  · rintro ⟨hi, hj, hk⟩; exact ⟨k, hk, i, hi, j, hj, rfl, rfl, rfl⟩
+
+theorem flatMap_range_single {β} (n k0 : Nat) (g : Nat → List β) (hk : k0 < n) (hg : ∀ k, k ≠ k0 → g k = []) :
+    (List.range n).flatMap g = g k0 := by
+  induction n with
+  | zero => omega
+  | succ n ih =>
+    rw [List.range_succ, List.flatMap_append]
+    by_cases e : k0 = n
+    · subst e
+      have : (List.range k0).flatMap g = [] := by
+        apply List.flatMap_eq_nil_iff.mpr
+        intro k hk'
+        exact hg k (by have := List.mem_range.mp hk'; omega)
+      simp [this]
+    · rw [ih (by omega)]
+      simp [hg n (fun e' => e e'.symm)]
+
+theorem grid_filter_eq (da db dc i j k : Nat) (hi : i < da) (hj : j < db) (hk : k < dc) :
+    (grid da db dc).filter (fun m => m == (i, j, k)) = [(i, j, k)] := by
+  unfold grid
+  rw [List.filter_flatMap, flatMap_range_single dc k _ hk]
+  · rw [List.filter_flatMap, flatMap_range_single da i _ hi]
+    · rw [List.map_eq_flatMap, List.filter_flatMap, flatMap_range_single db j _ hj]
+      · simp
+      · intro j' hj'
+        simp [hj']
+    · intro i' hi'
+      apply List.filter_eq_nil_iff.mpr
+      intro m hm
+      obtain ⟨j', _, rfl⟩ := List.mem_map.mp hm
+      simp [hi']
+  · intro k' hk'
+    apply List.filter_eq_nil_iff.mpr
+    intro m hm
+    simp only [List.mem_flatMap, List.mem_map] at hm
+    obtain ⟨i', _, j', _, rfl⟩ := hm
+    simp [hk']
+
+/-- every multiplier inside the box occurs exactly once -/
+theorem grid_count (da db dc i j k : Nat) (hi : i < da) (hj : j < db) (hk : k < dc) :
+    (grid da db dc).count (i, j, k) = 1 := by
+  rw [List.count_eq_length_filter, grid_filter_eq da db dc i j k hi hj hk]; rfl
+
+theorem length_flatMap_const {α β} (l : List α) (f : α → List β) (c : Nat) (h : ∀ x ∈ l, (f x).length = c) :
+    (l.flatMap f).length = l.length * c := by
+  induction l with
+  | nil => simp
+  | cons x xs ih =>
+    rw [List.flatMap_cons, List.length_append, h x (by simp), ih (fun y hy => h y (by simp [hy])),
+      List.length_cons, Nat.succ_mul]
+    omega
+
+theorem grid_length (da db dc : Nat) : (grid da db dc).length = da * db * dc := by
+  unfold grid
+  rw [length_flatMap_const _ _ (da * db)]
+  · simp [Nat.mul_comm]
+  · intro k _
+    rw [length_flatMap_const _ _ db]
+    · simp
+    · intro i _; simp
+
+/-- the unit cell itself followed by the images the code appends = the whole box, up to order -/
+theorem ucMults_perm (da db dc : Nat) (ha : 0 < da) (hb : 0 < db) (hc : 0 < dc) :
+    ((0, 0, 0) :: ucMults da db dc).Perm (grid da db dc) := by
+  have h := List.filter_append_perm (fun m => m == ((0 : Nat), (0 : Nat), (0 : Nat))) (grid da db dc)
+  rw [grid_filter_eq da db dc 0 0 0 ha hb hc] at h
+  exact h
+
+theorem ucMults_length (da db dc : Nat) (ha : 0 < da) (hb : 0 < db) (hc : 0 < dc) :
+    (ucMults da db dc).length + 1 = da * db * dc := by
+  have := (ucMults_perm da db dc ha hb hc).length_eq
+  rw [grid_length] at this
+  simpa using this
+
+/-! ### the same crystal: Euclidean division of every lattice index -/
+
+/-- `u = i + q·d` with `0 ≤ i < d`, over the rationals -/
+theorem split_coord (u : Int) (d : Nat) (hd : 0 < d) :
+    ∃ (i : Nat) (q : Int), i < d ∧ (u : Rat) = (i : Rat) + (q : Rat) * (d : Rat) := by
+  have hd' : (0 : Int) < (d : Int) := by omega
+  have h0 : 0 ≤ u % (d : Int) := Int.emod_nonneg _ (by omega)
+  have h1 : u % (d : Int) < d := Int.emod_lt_of_pos _ hd'
+  refine ⟨(u % (d : Int)).toNat, u / (d : Int), by omega, ?_⟩
+  have hi : (((u % (d : Int)).toNat : Nat) : Int) = u % (d : Int) := Int.toNat_of_nonneg h0
+  have hu : u = (d : Int) * (u / (d : Int)) + (((u % (d : Int)).toNat : Nat) : Int) := by
+    rw [hi]; exact (Int.mul_ediv_add_emod u d).symm
+  generalize (u % (d : Int)).toNat = i at hu
+  generalize u / (d : Int) = q at hu
+  subst hu
+  have e1 : ((i : Int) : Rat) = (i : Rat) := Rat.intCast_natCast i
+  have e2 : ((d : Int) : Rat) = (d : Rat) := Rat.intCast_natCast d
+  rw [Rat.intCast_add, Rat.intCast_mul, e1, e2]
+  clear h0 h1 hi
+  grind
+
+/-- a point displaced by a lattice vector of the original cell = its image inside the box, displaced by a lattice
+    vector of the enlarged cell -/
+theorem lattice_split (cell : Mat3) (da db dc : Nat) (ha : 0 < da) (hb : 0 < db) (hc : 0 < dc) (u v w : Int) :
+    ∃ i j k : Nat, i < da ∧ j < db ∧ k < dc ∧ ∃ u' v' w' : Int, ∀ p : Vec3,
+      Vec3.add p (cell.lattice u v w)
+        = Vec3.add (Vec3.add p (cell.lattice i j k)) ((cell.scaleRows da db dc).lattice u' v' w') := by
+  obtain ⟨i, u', hi, eu⟩ := split_coord u da ha
+  obtain ⟨j, v', hj, ev⟩ := split_coord v db hb
+  obtain ⟨k, w', hk, ew⟩ := split_coord w dc hc
+  refine ⟨i, j, k, hi, hj, hk, u', v', w', ?_⟩
+  intro p
+  simp only [Mat3.lattice, Mat3.scaleRows, Vec3.add, Vec3.smul, Vec3.mk.injEq, eu, ev, ew]
+  refine ⟨?_, ?_, ?_⟩ <;> grind
+
+/-- conversely every lattice translate of an image is a lattice translate of the original atom -/
+theorem lattice_merge (cell : Mat3) (da db dc : Nat) (i j k : Nat) (u' v' w' : Int) :
+    ∃ u v w : Int, ∀ p : Vec3,
+      Vec3.add (Vec3.add p (cell.lattice i j k)) ((cell.scaleRows da db dc).lattice u' v' w')
+        = Vec3.add p (cell.lattice u v w) := by
+  refine ⟨(i : Int) + u' * (da : Int), (j : Int) + v' * (db : Int), (k : Int) + w' * (dc : Int), ?_⟩
+  intro p
+  simp only [Mat3.lattice, Mat3.scaleRows, Vec3.add, Vec3.smul, Vec3.mk.injEq, Rat.intCast_add, Rat.intCast_mul,
+    Rat.intCast_natCast]
+  refine ⟨?_, ?_, ?_⟩ <;> grind
 
 end Mofun
